@@ -773,8 +773,10 @@ class Dataset(HLObject):
             if len(items) != len(idx):
                 raise TypeError(f"Can't broadcast ({len(items)},) -> ({len(idx)},)")
             conv = _convert(items, dt, sdt)
+            its = list(d._items)
             for i, x in zip(idx, conv):
-                d._items[i] = x
+                its[i] = x
+            d._items = its
             return
         items, sdt = _to_items(v, None)
         if isinstance(k, (builtins.int, _np.integer, SInt)):
